@@ -221,6 +221,8 @@ def run(ctx, params):
         n = rng.choice([0, 1, 2, 3, 5, 8, 13, 30])
         s = "".join(rng.choice(STR_ALPH) for _ in range(n))
         judge_string(ctx, s)
+        if i % 97 == 0:
+            ctx.later(lambda c, x=s: judge_string(c, x))
         if i % 4999 == 0:
             ctx.sample({"string": s, "normalised": normalize(s)})
     for fixed in ("", " ", "\xa0", "a", " a ", "a  b", "a\xa0b", "\xa0a\xa0", "a \xa0 b", "a\tb", "a\nb", " \t\n ", "a \t b", "\ta", "a\n"):
@@ -237,6 +239,8 @@ def run(ctx, params):
             ctx.inconclusive_because("generator and expat reader disagree on a generated document")
             continue
         ctx.case(judge_doc, ctx, again, text)  # attribute order as written in the text
+        if i % 11 == 0:
+            ctx.later(lambda c, d=again, t=text: judge_doc(c, d, t))
         if i % 401 == 0:
             ctx.sample({"xml": text[:500]})
 
